@@ -52,6 +52,8 @@ pub struct KnownFinding {
   #[serde(default)]
   pub commit: Option<String>,
   pub what: String,
+  #[serde(default)]
+  pub line: Option<String>,
 }
 
 /// Per-thread (mergeable) accumulator.
@@ -239,8 +241,15 @@ impl Report {
     std::fs::write(&tmp, serde_json::to_string_pretty(&ev).unwrap()).expect("write evidence");
     std::fs::rename(&tmp, &fin).expect("rename evidence");
 
-    for (sig, (what, n)) in &known_hits {
-      println!("KNOWN-FINDING: property={id} {what} [signature={sig} witnesses={n}]");
+    // every listed open finding of this property is announced, with the number of witnesses this run produced
+    for k in known.iter().filter(|k| &k.property == id && k.status == "open") {
+      let n = known_hits.get(&k.signature).map_or(0, |x| x.1);
+      let pre = format!("KNOWN-FINDING: property={id} ");
+      let text = match &k.line {
+        Some(l) if l.starts_with(&pre) => l[pre.len()..].to_string(),
+        _ => k.what.chars().take(300).collect(),
+      };
+      println!("KNOWN-FINDING: property={id} {text} [signature={} witnesses_in_this_run={n}]", k.signature);
     }
     for l in &lines {
       println!("{l}");
